@@ -37,6 +37,8 @@ ASSUMPTIONS = [
 REQUIRED = {
     "operator_sums_checked": 250,
     "divergence_sums_checked": 60,
+    "nine_point_sums_checked": 40,
+    "nine_point_periodicity_seen": 4,
     "simulation_steps_observed": 1500,
     "simulations": 60,
     "solvers_seen": 6,
@@ -113,6 +115,9 @@ def run_operator_shard(spec, res: ShardResult, rng):
         variants = [{}]
         if cls == "SphericalSymGrid":
             variants = [{}, {"conservative": None}, {"conservative": True}, {"conservative": False}]
+        if cls in stencils.CARTESIAN and len(shape) == 2:
+            # optional 9-point stencil of the 2d Cartesian Laplacian (virtual corner points)
+            variants = [{}, {"corner_weight": 1 / 3}, {"corner_weight": 0.5}, {"corner_weight": float(np.round(rng.uniform(0.05, 0.95), 2))}]
         for opts in variants:
             complex_ = rng.random() < 0.2
             data = steep_field(rng, shape, complex_)
@@ -126,7 +131,13 @@ def run_operator_shard(spec, res: ShardResult, rng):
                 res.violation(f"laplace raised {type(exc).__name__}: {str(exc)[:200]}", case)
                 continue
             total = complex((V * lap.data).sum())
-            mag = stencils.apply_model(gspec, "laplace", opts, padded, abs_mode=True)
+            w9 = opts.get("corner_weight", 0.0)
+            mag = stencils.apply_model(gspec, "laplace", {k: v for k, v in opts.items() if k != "corner_weight"}, padded, abs_mode=True)
+            if w9:
+                # |9-point stencil| <= 2 (1 + w) |5-point stencil| applied to the largest neighbour
+                res.count("nine_point_sums_checked")
+                res.seen("nine_point_periodicity_seen", tuple(gen.grid_periodic(gspec)))
+                mag = 2 * (1 + w9) * np.full(shape, float(np.abs(data).max()) * sum(4 / ((b - a) / n) ** 2 for (a, b), n in zip(bounds, shape)))
             budget = 1024 * EPS * float((V * mag).sum()) * max(1, len(shape)) + 1e-300
             claimed = stencils.effective_conservative("laplace", opts) if cls == "SphericalSymGrid" else True
             if not claimed:
